@@ -176,6 +176,9 @@ func explore(t *testing.T, job *proto.Job, out *bufio.Writer) {
 		obs, findings := runCase(t, p, c, scheds, false)
 		st.Cases++
 		st.LastIdx = idx
+		if c.Note != "" {
+			st.Exhaustive[c.Note]++
+		}
 		key := gosim.MixStr(0, c.Key())
 		caseSet[key] = struct{}{}
 		nt := p.Nontrivial(c, obs)
@@ -183,7 +186,11 @@ func explore(t *testing.T, job *proto.Job, out *bufio.Writer) {
 			ntSet[key] = struct{}{}
 		}
 		for _, o := range obs {
-			st.Runs++
+			if o.SubRuns > 0 {
+				st.Runs += o.SubRuns
+			} else {
+				st.Runs++
+			}
 			st.Steps += int64(o.Res.Steps)
 			st.IOOps += int64(o.Res.IOOps)
 			ilSet[gosim.Mix(key, o.Res.ILHash)] = struct{}{}
@@ -210,6 +217,10 @@ func explore(t *testing.T, job *proto.Job, out *bufio.Writer) {
 		}
 		for _, f := range findings {
 			v := proto.Violation{Idx: idx, Case: c, Finding: f, GenTape: c.GenTape, Lane: job.Lane}
+			if f.Narrow != nil {
+				v.Case, v.GenTape = f.Narrow, f.Narrow.GenTape
+				v.Finding.Narrow = nil
+			}
 			for _, i := range f.Obs {
 				if i < len(obs) {
 					v.Obs = append(v.Obs, summarize(obs[i], true))
